@@ -121,6 +121,8 @@ func genC37(c *hlib.Ctx) {
 	rr := c.R
 	n := c.N(1200, 30000)
 	pairs := [][2]int64{{300000, 3600000}, {300000, 3600000}, {300000, 3600000}, {50, 100}, {10, 120}, {1000, 5000}, {7, 21}, {50, 50}}
+	hangs := 0 // calls that did not return cost a full deadline each: stop provoking them after two
+	childCases, maxChild := 0, c.N(12, 150) // numChunks > len runs in a child process first: bounded
 	for i := 0; i < n; i++ {
 		p := pairs[rr.Intn(len(pairs))]
 		r1, r2 := p[0], p[1]
@@ -165,7 +167,15 @@ func genC37(c *hlib.Ctx) {
 		} else {
 			c.Count("nc2:auto")
 		}
-		c.Do(fmt.Sprintf("ds.ctr %d %d %d %d %s", r1, nc1, r2, nc2, field), true)
+		if nc2 > len(acs) && (hangs >= 2 || childCases >= maxChild) {
+			c.Count("gen:nc2>len-avoided")
+			nc2 = max(1, len(acs))
+		} else if nc2 > len(acs) {
+			childCases++
+		}
+		if strings.HasSuffix(c.Do(fmt.Sprintf("ds.ctr %d %d %d %d %s", r1, nc1, r2, nc2, field), true), ";hang") {
+			hangs++
+		}
 	}
 	m := c.N(400, 8000)
 	for i := 0; i < m; i++ {
